@@ -109,13 +109,15 @@ proof fn lemma_moved_left_step(mask: Seq<bool>, sv: Seq<(usize, FTok)>, i: int)
     }
 }
 // C14: a proposed split (feature f, threshold, score) comes from a position i of feature f's sorted order where the next value differs,
-// the threshold is the midpoint of values i and i+1, BOTH sides keep at least min_weight_leaf of the node's training weight, and the score
+// the threshold lies between values i and i+1 (the code takes the midpoint), BOTH sides keep at least min_weight_leaf of the node's training weight, and the score
 // is the impurity of the two sides weighted by their share of the node's total training WEIGHT
 pub open spec fn cand_at(c: (usize, FTok, ScoreTok), mask: Seq<bool>, si: Seq<SortedIndex>, f: int, i: int) -> bool {
     let left = moved_left(mask, si[f].sorted_values@, i + 1);
     let right = in_mask(mask).difference(left);
     &&& 0 <= i < mask.len() - 1
-    &&& c.1.t@ == VTerm::Mid(Box::new(VTerm::Val(f, i)), Box::new(VTerm::Val(f, i + 1)))
+    // the threshold separates value i (left, `<=`) from value i+1 (right): the midpoint the code takes, or value i itself (any t with
+    // v_i <= t < v_{i+1} routes the training samples identically; value i+1 would not)
+    &&& (c.1.t@ == VTerm::Mid(Box::new(VTerm::Val(f, i)), Box::new(VTerm::Val(f, i + 1))) || c.1.t@ == VTerm::Val(f, i))
     &&& !spec_close(VTerm::Val(f, i), VTerm::Val(f, i + 1))
     &&& !spec_below_min_leaf(WSum::Samples(right)) && !spec_below_min_leaf(WSum::Samples(left))
     &&& c.2.w@.num@ == WSum::Samples(right) && c.2.w@.den@ == WSum::Samples(in_mask(mask))
